@@ -199,6 +199,61 @@ func runSeq(c *Case, relevantOf map[int]bool) (string, bool) {
 	return fmt.Sprintf("(mkTCase %s\n  %s %s %s)", coqfmt.List(ops), coqfmt.List(outs), ints(sp.processed), ints(sp.saved)), usable
 }
 
+// runStress: many never-announced transactions, each delivered by several peers released from a
+// barrier at the same instant.  Which delivery is forwarded is not observable; what the processor
+// and the saver received is, and by C06_processed_once it does not depend on the interleaving: every
+// delivered transaction exactly once, saved iff relevant.  The Coq case lists the deliveries in
+// program order and compares only the processed / saved multisets (mismatches_stress).
+func runStress(c *Case) string {
+	ctx := coqfmt.QuietContext()
+	m := bitcoin_reader.NewTxManager(hour)
+	rel := map[int]bool{}
+	sp := &spy{relevant: rel, ids: map[bitcoin.Hash32]int{}}
+	m.SetTxProcessor(sp)
+	m.SetTxSaver(sp)
+	done := make(chan error, 1)
+	go func() { done <- m.Run(ctx) }()
+	peers := c.Ops[0].Node // number of peers
+	txsN := c.Ops[0].Tx    // number of transactions
+	nodes := make([]uuid.UUID, peers)
+	for i := range nodes {
+		nodes[i] = uuid.New()
+	}
+	var ops []string
+	for t := 0; t < txsN; t++ {
+		tx := wire.NewMsgTx(1)
+		tx.LockTime = uint32(700000 + c.ID*100000 + t)
+		rel[t] = t%3 == 0
+		sp.Lock()
+		sp.ids[*tx.TxHash()] = t
+		sp.Unlock()
+		start := make(chan struct{})
+		var wg sync.WaitGroup
+		for p := 0; p < peers; p++ {
+			wg.Add(1)
+			go func(p int) {
+				defer wg.Done()
+				<-start
+				m.AddTx(ctx, nil, nodes[p], tx)
+			}(p)
+			ops = append(ops, fmt.Sprintf("OAddTx %d %d %s 1%%Z", p, t, coqfmt.Bool(rel[t])))
+		}
+		close(start)
+		wg.Wait()
+	}
+	m.Stop(ctx)
+	select {
+	case <-done:
+	case <-time.After(10 * time.Second):
+		sp.Lock()
+		sp.processed = append(sp.processed, 999999) // Run did not return: force a mismatch
+		sp.Unlock()
+	}
+	sp.Lock()
+	defer sp.Unlock()
+	return fmt.Sprintf("(mkTCase %s\n  [] %s %s)", coqfmt.List(ops), ints(sp.processed), ints(sp.saved))
+}
+
 // runConcurrent: goroutines issue operations at the same instant over the same txids; every call is
 // atomic with respect to the entry it touches, so the result must equal that of SOME sequential
 // order.  The harness records each call's result, then searches the permutations of the calls
@@ -354,6 +409,11 @@ func main() {
 			if i%5 == 4 {
 				mode = "concurrent"
 			}
+			if i%50 == 7 { // a few stress cases: (peers, transactions) in the first op
+				rr := r.Fork(uint64(i))
+				cases = append(cases, Case{ID: i, Mode: "stress", Ops: []Op{{K: "stress", Node: 4 + rr.Intn(5), Tx: 200 + rr.Intn(200)}}})
+				continue
+			}
 			cases = append(cases, genCase(r.Fork(uint64(i)), i, mode))
 		}
 	}
@@ -368,7 +428,10 @@ func main() {
 		go func(i int) {
 			defer wg.Done()
 			defer func() { <-sem }()
-			if cases[i].Mode == "concurrent" {
+			if cases[i].Mode == "stress" {
+				coq[i] = runStress(&cases[i])
+				usable[i] = true
+			} else if cases[i].Mode == "concurrent" {
 				coq[i] = runConcurrent(&cases[i], relevantOf)
 				usable[i] = true
 			} else {
@@ -379,8 +442,8 @@ func main() {
 	wg.Wait()
 	stats := map[string]int{}
 	distinct := map[string]bool{}
-	var seqCases, concCases []string
-	var seqIDs, concIDs []int
+	var seqCases, concCases, stressCases []string
+	var seqIDs, concIDs, stressIDs []int
 	for i, c := range cases {
 		stats["mode_"+c.Mode]++
 		if !usable[i] {
@@ -391,7 +454,10 @@ func main() {
 			stats["op_"+op.K]++
 		}
 		distinct[coq[i]] = true
-		if c.Mode == "concurrent" {
+		if c.Mode == "stress" {
+			stressCases = append(stressCases, coq[i])
+			stressIDs = append(stressIDs, c.ID)
+		} else if c.Mode == "concurrent" {
 			concCases = append(concCases, coq[i])
 			concIDs = append(concIDs, c.ID)
 		} else {
@@ -423,15 +489,16 @@ func main() {
 	}
 	write(seqCases, seqIDs, "mismatches", k*3/4)
 	write(concCases, concIDs, "mismatches_linearisable", k-k*3/4)
+	write(stressCases, stressIDs, "mismatches_stress", 2)
 	coqfmt.WriteJSON(filepath.Join(*out, "cases.json"), cases)
 	samples := []interface{}{}
 	for i := 0; i < len(cases) && len(samples) < 3; i += 4 {
 		samples = append(samples, map[string]interface{}{"case": cases[i], "coq": coq[i]})
 	}
 	coqfmt.WriteJSON(filepath.Join(*out, "stats.json"), map[string]interface{}{
-		"evaluations":         len(seqCases) + len(concCases),
+		"evaluations":         len(seqCases) + len(concCases) + len(stressCases),
 		"distinct_nontrivial": len(distinct),
-		"rule":                "sequential histories of 4-27 AddTxID/AddTx/GetTxRequests calls over 1-5 nodes and 1-6 txids (timeout switched per call through the verif hook: expired / not expired; every 10th case uses the real clock with a 100 ms timeout and sleeps for mixed ages); concurrent cases: 3-6 calls from as many goroutines released together over 1-2 txids, checked for linearisability against the model; the real Run loop feeds a counting processor/saver; distinct = distinct case text",
+		"rule":                "sequential histories of 4-27 AddTxID/AddTx/GetTxRequests calls over 1-5 nodes and 1-6 txids (timeout switched per call through the verif hook: expired / not expired; every 10th case uses the real clock with a 100 ms timeout and sleeps for mixed ages); concurrent cases: 3-6 calls from as many goroutines released together over 1-2 txids, checked for linearisability against the model; stress cases: 200-400 never-announced transactions each delivered by 4-8 peers released together, processed / saved multisets compared; the real Run loop feeds a counting processor/saver; distinct = distinct case text",
 		"distribution":        stats,
 		"index":               index,
 		"samples":             samples,
